@@ -11,14 +11,14 @@
 //! pages up to the first non-retried fault, each once, in order, then end / error; page request i carries the state
 //! returned with page i-1, the first none, a retry the same state again (read off the frames the mock logged, paging
 //! state re-parsed by cqlref); after an early drop at most one further page is requested.
-use h_mock::c07_pager::{self as pg, Case, Consumer, Fault, Mode, PsKind};
+use h_mock::c07_pager::{self as pg, Case, Consumer, Fault, Mode, PsKind, RowShape};
 use serde_json::json;
 use std::collections::BTreeSet;
 use std::sync::Arc;
 use vcore::Report;
 
 fn base(mode: Mode, split: &[usize], ps: PsKind) -> Case {
-    Case { mode, idempotent: false, split: split.to_vec(), ps, faults: Vec::new(), consumer: Consumer::Eager, nodes: pg::NODES, cached_metadata: false, metadata_anyway_on: None }
+    Case { mode, idempotent: false, split: split.to_vec(), ps, faults: Vec::new(), consumer: Consumer::Eager, nodes: pg::NODES, cached_metadata: false, metadata_anyway_on: None, shape: RowShape::Nulls(0) }
 }
 
 /// paging-state alphabets of the quick tier (thorough adds `mixed`); the rotation below walks this list
@@ -140,6 +140,31 @@ fn gen_every_page() -> Vec<Case> {
     v
 }
 
+/// Pages whose frame body exceeds 32 KiB / 64 KiB (one text cell of 40 000 / 70 000 bytes in row 0, which is followed
+/// by further rows on the same or on later pages), fault-free and with a fault on the big page.
+fn gen_big(with_faults: bool) -> Vec<Case> {
+    let mut v = Vec::new();
+    for size in [40_000usize, 70_000] {
+        for split in [vec![2usize], vec![1, 1], vec![2, 1], vec![0, 2, 0, 1]] {
+            let big_page = split.iter().position(|s| *s > 0).unwrap();
+            for mode in Mode::ALL {
+                let b = Case { shape: RowShape::Big(size), ..base(mode, &split, PsKind::OneByte) };
+                if !with_faults {
+                    v.push(b.clone());
+                    if mode == Mode::Prepared {
+                        v.push(Case { cached_metadata: true, ..b.clone() });
+                    }
+                } else {
+                    for f in [Fault::Reset, Fault::Delay, Fault::ReadTimeout] {
+                        v.push(Case { idempotent: true, faults: vec![(big_page, f)], ..b.clone() });
+                    }
+                }
+            }
+        }
+    }
+    v
+}
+
 fn consumers_for(split: &[usize]) -> Vec<Consumer> {
     let n: usize = split.iter().sum();
     let mut v = Vec::new();
@@ -247,13 +272,16 @@ fn main() {
     let (cases, bound_note) = match leg.as_str() {
         "split" => {
             let nmax = nmax_arg.unwrap_or(if thorough { 6 } else { 5 });
-            (gen_split(nmax, thorough), json!({"rows_max": nmax, "faults_per_run": 0}))
+            let mut cases = gen_split(nmax, thorough);
+            cases.extend(gen_big(false));
+            (cases, json!({"rows_max": nmax, "faults_per_run": 0}))
         }
         "fault" => {
             let nmax = nmax_arg.unwrap_or(if thorough { 4 } else { 3 });
             let nmax2: Option<usize> = if thorough { Some(r.args.extra_value("--nmax2").and_then(|s| s.parse().ok()).unwrap_or(3)) } else { None };
             let mut cases = gen_fault(nmax, nmax2);
             cases.extend(gen_every_page());
+            cases.extend(gen_big(true));
             (cases, json!({"rows_max_one_fault": nmax, "rows_max_two_faults": nmax2, "faults_per_run": if thorough { 2 } else { 1 }, "every_page_family": "next-node failure on the first attempt of every page from page j on, 2- and 3-node clusters, nodes+1..nodes+4 pages"}))
         }
         "consumer" => {
@@ -264,6 +292,13 @@ fn main() {
         other => vcore::machinery_error(&format!("unknown --leg {other}")),
     };
     let mut cases = cases;
+    // the NULL pattern of the rows rotates over the cases: row idx has NULLs in the columns given by the bits of
+    // (idx + offset) mod 8, so every NULL position/combination occurs in first, middle and last rows of pages
+    for (i, c) in cases.iter_mut().enumerate() {
+        if let RowShape::Nulls(_) = c.shape {
+            c.shape = RowShape::Nulls(((i / 2 + i / 16) % 8) as u8);
+        }
+    }
     // cases with a connection reset need a world of their own: run them after the others (stable: simplest first within each group)
     cases.sort_by_key(|c| (c.has_reset(), pg::NODES - c.nodes));
     if r.args.has_flag("--count") {
@@ -296,6 +331,9 @@ fn run(r: Report, rt: tokio::runtime::Runtime, cases: Vec<Case>, bound_note: ser
     for (i, o) in &res.observed {
         r.eval(1);
         r.counters.add("rows_delivered", o.rows as u64);
+        r.counters.add("null_cells_delivered", o.null_cells as u64);
+        r.counters.add("rows_delivered_after_a_row_with_null_in_the_same_page", o.rows_after_null_row_in_page as u64);
+        r.counters.max("largest_cell_delivered_bytes", o.max_cell_bytes as u64);
         r.counters.add("page_requests_checked", o.frames_checked as u64);
         r.counters.add("paging_states_checked", o.states_checked as u64);
         r.counters.max("longest_paging_state_bytes", o.max_state_len as u64);
